@@ -104,7 +104,7 @@ def _pick(ctx, rep):
     picks = []
     saved_default = [o for o in opts._options if o.name == 'policy_file'][0].default
     try:
-        for how, exist_bits, fallback, ctor in itertools.product(hows, range(8), (True, False), (None, 'ctor.yaml')):
+        for how, exist_bits, fallback, ctor in itertools.product(hows, range(8), (True, False), (None, 'ctor.yaml', 'policy.yaml', 'policy.json', 'other.yaml')):
             tmp = fsharness.scratch('opverif-pick-')
             try:
                 exists = {'policy.yaml': bool(exist_bits & 1), 'policy.json': bool(exist_bits & 2), 'other.yaml': bool(exist_bits & 4)}
